@@ -231,6 +231,17 @@ theorem containsSub_length (n : Bytes) : âˆ€ h : Bytes, containsSub n h = true â
     | inl hp => exact pre n (c :: t) hp
     | inr hr => have := ih hr; simp; omega
 
+/-- `containsSub` is a search at every position: if it fails, no suffix starts with the needle -/
+theorem containsSub_false_drop (n h : Bytes) (hc : containsSub n h = false) (i : Nat) :
+    n.isPrefixOf (h.drop i) = false := by
+  induction h generalizing i with
+  | nil => simpa [containsSub] using hc
+  | cons c t ih =>
+    simp only [containsSub, Bool.or_eq_false_iff] at hc
+    cases i with
+    | zero => simpa using hc.1
+    | succ j => simpa using ih hc.2 j
+
 /-- The level search stops at a level whose closer does not occur in the content
 (given fuel â‰¥ what `commentText` supplies). -/
 theorem findLevel_spec (fuel k : Nat) (content : Bytes) (hf : content.length + 1 â‰¤ k + fuel) :
